@@ -86,3 +86,7 @@ def utf8(text):
 
 def unutf8(octets):
     return bytes(octets).decode("utf-8")
+
+
+def or_empty(x):
+    return b"" if x is None else (x.encode("utf-8") if isinstance(x, str) else bytes(x))
